@@ -10,7 +10,7 @@ git -C $WT diff -- mabwiser > $L.patch.diff
 [ -s $L.patch.diff ] || { echo "$ID: no source change"; exit 9; }
 PYTHONPATH=$WT timeout 900 /venv/bin/python demo.py > $L.mut.log 2>&1; RC1=$?
 if [ "${SKIP_TESTS:-0}" = "1" ]; then TESTS="skipped"; else
-PYTHONPATH=$WT timeout 3000 /venv/bin/python -m pytest -q -p no:cacheprovider --timeout=900 tests > $L.tests.log 2>&1; RCT=$?
+PYTHONPATH=$WT timeout 3000 /venv/bin/python -m pytest -q -p no:cacheprovider --timeout=900 tests --deselect tests/test_ridge.py::RidgeRegressionTest::test_predict_ridge_scaler > $L.tests.log 2>&1; RCT=$?
 TESTS="rc=$RCT $(tail -1 $L.tests.log)"
 fi
 git -C $WT checkout -- mabwiser
